@@ -111,6 +111,15 @@ CHECKS = {
          'give the known value. A crash of the engine while running an operation is a refuting event.',
     note='double_quotes=chars only. K27 (unification of a cons+string list with a long partial string) and K28 (SIGSEGV in '
          'compare/3 on the same layout) are KNOWN-FINDINGs.'),
+ 'C21': dict(
+    level='exploration',
+    technique='runtime monitoring: differential oracle between atom creation paths + reference code-point order',
+    text='Texts around the inline-atom limit (1-9 bytes, multi-byte characters, NUL), texts equal or close to predefined atoms and '
+         'long texts are turned into atoms by 11 creation paths (atom_codes, atom_chars, atom_concat, sub_atom, char_code, '
+         'read_term, =../functor, write+read, consulted clause literal, copy, findall); each must be == and compare = to the '
+         'literal, select the literal\'s clause in a consulted fact table, and read back the same codes and length; different '
+         'texts must be \\== and ordered by code points.',
+    note='Identity observed through ==, compare/3, clause selection and read-back (not the raw atom index).'),
 }
 
 NOT_APPLICABLE_REASON_UNBUILT = ('check designed in DESIGN.md but not built/validated yet in this session; '
